@@ -64,8 +64,9 @@ type State struct {
 }
 
 type protectedLoc struct {
-	loc Term
-	ty  types.Type
+	loc   Term
+	ty    types.Type
+	alloc *ssa.Alloc // the non-escaping local this cell belongs to (nil for captured scalars)
 }
 
 // symHeapRec records the heap sorts read by the body of a defined spec function.
